@@ -582,15 +582,28 @@ def rule_A5(ctx) -> None:
     # the sentinel: a class attribute bound to object()
     sent = [t.id for st in cls.body if isinstance(st, ast.Assign) and isinstance(st.value, ast.Call) and ast.unparse(st.value.func) == "object"
             for t in st.targets if isinstance(t, ast.Name)]
-    if not sent:
-        raise AnalysisError("AsyncChannel: flush sentinel (class attribute = object()) not found")
-    s = sent[0]
+    # ... or a module-level singleton (`_FLUSH = object()` / `= _PrivateClass()`), possibly kept under a class attribute as well
+    mod_sent = [t.id for st in mod.tree.body if isinstance(st, ast.Assign) and isinstance(st.value, ast.Call) and not st.value.args and not st.value.keywords
+                and isinstance(st.value.func, ast.Name) and (st.value.func.id == "object" or (st.value.func.id.startswith("_") and st.value.func.id in mod.defs))
+                for t in st.targets if isinstance(t, ast.Name)]
+    sent += [t.id for st in cls.body if isinstance(st, ast.Assign) and isinstance(st.value, ast.Name) and st.value.id in mod_sent for t in st.targets if isinstance(t, ast.Name)]
+    if not sent and not mod_sent:
+        raise AnalysisError("AsyncChannel: flush sentinel (class attribute / module singleton = object()) not found")
+    s = sent[0] if sent else mod_sent[0]
+    sent_names = set(sent) | set(mod_sent)
+
+    def is_sent(e: ast.AST, local=()) -> bool:
+        return (isinstance(e, ast.Attribute) and e.attr in sent_names) or (isinstance(e, ast.Name) and (e.id in sent_names or e.id in local))
+
     putters = set()
     for mname, fns in mod.methods(CLS).items():
         for fn in fns:
+            # `for signal in repeat(<sentinel>, n)`: the loop variable is the sentinel
+            local = {lp.target.id for lp in ast.walk(fn) if isinstance(lp, ast.For) and isinstance(lp.target, ast.Name) and isinstance(lp.iter, ast.Call)
+                     and ast.unparse(lp.iter.func).split(".")[-1] == "repeat" and lp.iter.args and is_sent(lp.iter.args[0])}
             for n in ast.walk(fn):
                 if isinstance(n, ast.Call) and isinstance(n.func, ast.Attribute) and n.func.attr in ("put", "put_nowait"):
-                    if any(isinstance(a, ast.Attribute) and a.attr == s for a in n.args):
+                    if any(is_sent(a, local) for a in n.args):
                         putters.add(mname)
     if putters == {"_flush_queue"}:
         ctx.proved("A5", "sentinel:only-flush-puts", mod.loc(cls))
@@ -631,7 +644,7 @@ def rule_A5(ctx) -> None:
         fn = split_conditional_returns(fn)
         g = CFG(fn, implicit_exc=False)
         tests = [nd for nd in g.nodes if nd.kind == "test" and isinstance(nd.stmt, ast.If) and isinstance(nd.stmt.test, ast.Compare)
-                 and any(isinstance(c, ast.Attribute) and c.attr == s for c in [nd.stmt.test.left] + nd.stmt.test.comparators)]
+                 and any(is_sent(c) for c in [nd.stmt.test.left] + nd.stmt.test.comparators)]
         gets = [st for st in ast.walk(fn) if isinstance(st, ast.Assign) and isinstance(st.value, ast.Await) and "_queue.get" in ast.unparse(st.value)]
         name = f"{m}:sentinel-never-returned"
         if not gets:
@@ -870,6 +883,8 @@ def rule_A10(ctx) -> None:
                         continue
                     it = lp.data
                     k = _const_int(it[2][0]) if it[0] == "call" and dotted(it[1]) == "range" and len(it[2]) == 1 else None
+                    if k is None and it[0] == "call" and dotted(it[1]).split(".")[-1] == "repeat" and len(it[2]) == 2:
+                        k = _const_int(it[2][1])        # itertools.repeat(x, n) yields x max(0, n) times
                     if k is None:
                         undecided = True
                     else:
